@@ -39,13 +39,15 @@ inductive QItem
   | skip (r : Rec)             -- delayedApply{skip}
 deriving DecidableEq, Repr
 
+/-- an entry of Engine.waitQ: a write waits for the binlog commit of its own (predicted) end offset `off`; a read
+    (`rd`, a Do that returned no event) carries in `off` the offset row of the write transaction it has read from -/
 structure Waiter where
   tag : Nat
   off : Nat
   rd : Bool
 deriving DecidableEq, Repr
 
-inductive Kind | ok | cbfail | cbfail0 | sqlfail | appfail | read
+inductive Kind | ok | cbfail | cbfail0 | sqlfail | appfail | read | ctxfail
 deriving DecidableEq, Repr
 
 structure St where
@@ -151,7 +153,7 @@ def fitCount : Nat → List Rec → Nat
   | _, [] => 0
   | m, r :: t => if r.isEv && decide (r.ln ≤ m) then fitCount (m - r.ln) t + 1 else 0
 
-def badBuf (s : St) (m : Nat) : Bool := m == 0 || decide (s.len < rp s + m) || s.closed || s.ptx
+def badBuf (s : St) (m : Nat) : Bool := m == 0 || decide (total s.rest < m) || s.closed || s.ptx
 
 /-- error the engine returns with the new offset: nil if the payload was consumed completely, "short"
     (ErrorNotEnoughData) if it ends with a partial event, "magic" (ErrorUnknownMagic) if a service record follows -/
@@ -198,6 +200,9 @@ def relOK (k : Nat) (w : Waiter) : Bool := w.rd || decide (w.off ≤ k)
 def released (k : Nat) (l : List Waiter) : List Waiter := l.takeWhile (relOK k)
 def remaining (k : Nat) (l : List Waiter) : List Waiter := l.dropWhile (relOK k)
 
+/-- NOT the code (seeded change C17-r5-1): every entry that is not an uncommitted write is released, wherever it sits -/
+def releasedCompacting (k : Nat) (l : List Waiter) : List Waiter := l.filter (relOK k)
+
 def notify (s : St) (k : Nat) : St :=
   { s with ci := k, waitQ := remaining k s.waitQ,
            acked := s.acked ++ (released k s.waitQ).map (·.tag),
@@ -226,7 +231,10 @@ def writeOK (s : St) (id ln extra : Nat) : St :=
            dbo := s.dbo + plen ln + extra, len := s.dbo + plen ln + extra,
            done := s.done ++ [⟨true, id, plen ln, s.dbo + plen ln⟩] ++ svcRec extra (s.dbo + plen ln + extra) }
 
-def canWrite (s : St) : Bool := !s.repl && decide (s.dbo = s.len)
+/-- a write can reach the binlog only on a master whose binlog writer is running: fsbinlog starts the writer after the
+    reader has delivered everything ("writer is not initialized (still reading?)"), OpenEngine returns after the apply queue
+    was flushed, and Append checks that the engine's offset is the binlog's length -/
+def canWrite (s : St) : Bool := !s.repl && decide (s.dbo = s.len) && !s.q && s.rest.isEmpty
 def busy (s : St) : Bool := s.ptx || s.closed
 
 def ackNow (s : St) (id : Nat) (w : Bool) : St :=
@@ -244,8 +252,16 @@ def doWrite (s : St) (id ln extra : Nat) : St × String :=
       else (park s1 id (s.dbo + plen ln) false, s!"wait dbo={s1.dbo} asap=1")
     else (ackNow s1 id false, s!"ok dbo={s1.dbo} asap=0")
 
+/-- NOT the code (seeded change C17-r5-2): the offset row is updated AFTER binlog.Append. If that UPDATE fails (the
+    caller's context died after the callback's own statements), Do returns an error, the savepoint is rolled back and
+    dbOffset is reset - but the binlog keeps the record. -/
+def doWriteAppendFirstCtxFail (s : St) (id ln extra : Nat) : St :=
+  { s with len := s.dbo + plen ln + extra,
+           done := s.done ++ [⟨true, id, plen ln, s.dbo + plen ln⟩] ++ svcRec extra (s.dbo + plen ln + extra) }
+
 def doRead (s : St) (id : Nat) : St × String :=
-  if s.wait && !s.waitQ.isEmpty then (park s id 0 true, s!"wait dbo={s.dbo} asap=0")
+  -- a read that finds parked calls is parked behind them; what it has seen is the write transaction up to its offset row
+  if s.wait && !s.waitQ.isEmpty then (park s id s.tx.off true, s!"wait dbo={s.dbo} asap=0")
   else (ackNow s id false, s!"ok dbo={s.dbo} asap=0")
 
 def doOp (s : St) (id ln extra : Nat) (k : Kind) : St × String :=
@@ -254,6 +270,8 @@ def doOp (s : St) (id ln extra : Nat) (k : Kind) : St × String :=
     | .ok => doWrite s id ln extra
     | .read => doRead s id
     | .appfail => (s, s!"err dbo={s.dbo} asap={asapStr (s.wait && !s.repl)}")
+    -- .ctxfail: the callback succeeded but the caller's context is dead when the engine runs its own
+    -- `UPDATE __binlog_offset`, which comes strictly BEFORE binlog.Append: error, savepoint rolled back, nothing appended
     | _ => (s, s!"err dbo={s.dbo} asap=0")
 
 /-- NoWaitCommit master, mustCommitNow: AppendASAP, park on the wait queue holding the RW connection, the binlog
@@ -363,7 +381,7 @@ def step (s : St) : Op → St × String
   | .dSkip n => deliverSkip s n
   | .dApplyBuf m => deliverBuf s m
   | .view => (s, fmtDB s.com)
-  | .append l => if busy s || !l.all (fun x => decide (0 < x.2.2)) then (s, "bad-op") else (appendStep s l, "ok")
+  | .append l => if busy s || !s.repl || !l.all (fun x => decide (0 < x.2.2)) then (s, "bad-op") else (appendStep s l, "ok")
   | .hold b => ({ s with hold := b }, "ok")
   | .close => closeStep s
   | .crash d torn =>
